@@ -6,6 +6,7 @@ import (
 	"os"
 	"path/filepath"
 	"runtime"
+	"sort"
 	"strings"
 	"sync"
 	"time"
@@ -381,21 +382,68 @@ func (a *apiCtx) membershipClause() {
 	}
 	term0 := x.C.Node(l).R().Status().Term
 	to := 3 * time.Second
-	fut := x.C.Node(l).R().AddServer("nvx", "nvx", false, to)
+	r := x.R
+	// the change: add a non-voter, remove a follower, or the leader removes itself (it commits the entry as leader
+	// and steps down when it applies it)
+	kind := r.Intn(3)
+	server, add, desc := "nvx", true, "AddServer(nvx, non-voter)"
+	if kind > 0 {
+		st := x.C.Node(l).R().VerifState()
+		voters := 0
+		var followers []string
+		if st.Configuration != nil {
+			for id := range st.Configuration.Members {
+				if st.Configuration.IsVoter[id] {
+					voters++
+					if id != l {
+						followers = append(followers, id)
+					}
+				}
+			}
+		}
+		sort.Strings(followers)
+		switch {
+		case voters < 3:
+			kind = 0
+		case kind == 1:
+			server, add, desc = followers[r.Intn(len(followers))], false, "RemoveServer(follower)"
+		default:
+			server, add, desc = l, false, "RemoveServer(the leader itself)"
+		}
+	}
+	// recorded as a membership operation, so that the majority oracles follow the configurations in force
+	mop := &mon.Op{Client: 98, ID: nextOp("clause"), Type: map[bool]string{true: "ADD", false: "REM"}[add], Target: l, Server: server}
+	x.M.Emit(mon.Event{Kind: mon.KCall, Op: mop})
+	var fut raft.Future[raft.Configuration]
+	if add {
+		fut = x.C.Node(l).R().AddServer(server, server, false, to)
+	} else {
+		fut = x.C.Node(l).R().RemoveServer(server, to)
+	}
 	t0 := time.Now()
 	res := fut.Await() // awaited without retrying
+	mret := *mop
+	mret.Outcome = "unknown"
+	x.M.Emit(mon.Event{Kind: mon.KRet, Op: &mret})
 	st := x.C.Node(l).R().VerifState()
-	committed := st.CommittedConfiguration != nil && st.Configuration != nil && st.CommittedConfiguration.Index == st.Configuration.Index
-	_, member := st.Configuration.Members["nvx"]
-	stillLeader := st.State == raft.Leader && st.Term == term0
+	// committed under this leader: the node itself knows the change as committed and is still in the term in which
+	// it submitted it (only the leader of a term commits in that term; a self-removed leader steps down without
+	// changing the term)
+	committed := false
+	if st.CommittedConfiguration != nil {
+		_, member := st.CommittedConfiguration.Members[server]
+		committed = member == add
+	}
+	sameTerm := st.Term == term0 && (st.State == raft.Leader || server == l)
 	x.count("api.membership_clause_checks", 1)
-	if res.Error() != nil && committed && member && stillLeader {
-		a.viol("membership-future-unresolved", "AddServer(nvx) was committed by leader %s (configuration index %d, same term %d, still leader) but its future returned %q after %v", l, st.Configuration.Index, term0, res.Error(), time.Since(t0).Round(time.Millisecond))
+	x.Cover("membership-clause:" + desc)
+	if res.Error() != nil && committed && sameTerm {
+		a.viol("membership-future-unresolved", "%s of %s was committed by leader %s (committed configuration index %d, still term %d) but its future returned %q after %v", desc, server, l, st.CommittedConfiguration.Index, term0, res.Error(), time.Since(t0).Round(time.Millisecond))
 	}
 	if res.Error() == nil {
 		cfg := res.Success()
-		if _, ok := cfg.Members["nvx"]; !ok {
-			a.viol("membership-future-wrong-configuration", "AddServer(nvx) future succeeded with a configuration that lacks nvx: %s", cfg.String())
+		if _, ok := cfg.Members[server]; ok != add {
+			a.viol("membership-future-wrong-configuration", "%s of %s: the future succeeded with a configuration that does not reflect the change: %s", desc, server, cfg.String())
 		}
 	}
 }
